@@ -1,7 +1,7 @@
 (* C10 - Prefix and suffix relations are consistent with equality and joining. *)
 From Coq Require Import List NArith Bool.
 Import ListNotations.
-From TP Require Import Core Path Unix Spec C04Proofs C10Proofs.
+From TP Require Import Core Path Unix Win Spec GenJoin WinSimple C04Proofs C10Proofs C10WinProofs.
 
 (* Unix, all byte strings p q. *)
 (* starts_with holds exactly when q's components are a leading run of p's components *)
@@ -65,6 +65,39 @@ Theorem C10_abstract_front : forall (st A : Type) (cs : st -> list A) (Inv : st 
   end.
 Proof. exact iter_after_front. Qed.
 Print Assumptions C10_abstract_front.
+
+(* Windows, prefix-free paths (not starting with two separators): components are determined by their
+   bytes, so the same theorems hold over the grammar specification wspec *)
+Theorem C10_windows_starts_with_plain : forall p q : list N, noprefix p = true -> noprefix q = true ->
+  (w_starts_with p q = true <-> exists t, wspec p = wspec q ++ t).
+Proof. exact w_starts_with_plain. Qed.
+Theorem C10_windows_ends_with_plain : forall p q : list N, noprefix p = true -> noprefix q = true ->
+  (w_ends_with p q = true <-> exists t, wspec p = t ++ wspec q).
+Proof. exact w_ends_with_plain. Qed.
+Theorem C10_windows_strip_iff_starts_plain : forall p q : list N, noprefix p = true -> noprefix q = true ->
+  ((exists r, w_strip_prefix p q = Some r) <-> w_starts_with p q = true).
+Proof. exact w_strip_iff_starts. Qed.
+Theorem C10_windows_join_starts_plain : forall a b : list N, noprefix a = true -> noprefix b = true ->
+  g_rooted (wsep true) b = false -> w_starts_with (w_push a b) a = true.
+Proof. exact w_join_starts_with_plain. Qed.
+Print Assumptions C10_windows_starts_with_plain.
+Print Assumptions C10_windows_ends_with_plain.
+Print Assumptions C10_windows_strip_iff_starts_plain.
+Print Assumptions C10_windows_join_starts_plain.
+(* the known findings on the model: D7 (equal paths that do not start with each other; a name that
+   matches a prefix), D10 (base of two separators), D15 (remainder that re-reads as a prefix) *)
+Lemma C10_windows_d7_refuted :
+  w_path_eq [67;58;92;97] [99;58;92;97] = true /\ w_starts_with [67;58;92;97] [99;58;92;97] = false
+  /\ w_ends_with [97;92;67;58] [67;58] = true.
+Proof. vm_compute. repeat split. Qed.
+Lemma C10_windows_d10_refuted : w_push [92;92] [98] = [92;92;98] /\ w_starts_with [92;92;98] [92;92] = false.
+Proof. vm_compute. split; reflexivity. Qed.
+Lemma C10_windows_d15_refuted :
+  w_strip_prefix [67;58;92;92;97] [67;58] = Some [92;92;97] /\ w_push [67;58] [92;92;97] = [92;92;97].
+Proof. vm_compute. split; reflexivity. Qed.
+(* C10_windows_partial: for Windows paths with prefixes the relations are decided by oracle_c10 on every
+   explored pair (component relations over wspec, join-back, join consistency), with D7 / D10 / D15 as
+   the known classes. *)
 
 Example C10_example :
   u_starts_with [47;97;47;47;98;47;46;47;99] [47;97;47;98] = true       (* /a//b/./c starts with /a/b *)
